@@ -1,6 +1,6 @@
 #!/bin/bash
 # tools/soak.sh "<seeds>" [tier] — run the tie+oracle part of every check for each seed (no evidence written); prints non-discharged obligations
-cd /verif; mkdir -p .work/soak
+cd /verif; mkdir -p .work/soak; rm -f .work/soak/*.log
 tier=${2:-quick}
 for sd in $1; do for pid in $(python3 -c "import json;print(' '.join(c['property_id'] for c in json.load(open('MANIFEST.json'))['checks']))"); do echo "$sd $pid"; done; done |
  xargs -P 5 -L 1 bash -c 'VERIF_TIER='$tier' VERIF_SEED=$0 tools/try_run.sh none $1 > .work/soak/$1.$0.'$tier'.log 2>&1'
